@@ -214,11 +214,9 @@ func (c *XAConn) createNewTxOnExecIfNeed(ctx context.Context, f func() (types.Ex
 
 	if tx != nil && currentAutoCommit {
 		if err = c.Commit(ctx); err != nil {
+			// Commit has rolled the branch back (XA END & XA ROLLBACK); the caller must see the failure
 			log.Errorf("xa connection proxy commit failure xid:%s, err:%v", c.txCtx.XID, err)
-			// XA End & Rollback
-			if err := c.Rollback(ctx); err != nil {
-				log.Errorf("xa connection proxy rollback failure xid:%s, err:%v", c.txCtx.XID, err)
-			}
+			return nil, err
 		}
 	}
 
@@ -332,24 +330,25 @@ func (c *XAConn) Commit(ctx context.Context) error {
 	}
 
 	now := time.Now()
-	if c.end(ctx, xa.TMSuccess) != nil {
-		return c.commitErrorHandle(ctx)
+	if err := c.end(ctx, xa.TMSuccess); err != nil {
+		return c.commitErrorHandle(ctx, err)
 	}
 
-	if c.checkTimeout(ctx, now) != nil {
-		return c.commitErrorHandle(ctx)
+	if xaConnTimeout > 0 && now.Sub(c.branchRegisterTime) > xaConnTimeout {
+		return c.commitErrorHandle(ctx, fmt.Errorf("XA branch timeout error xid:%s", c.txCtx.XID))
 	}
 
-	if c.xaResource.XAPrepare(ctx, c.xaBranchXid.String()) != nil {
-		return c.commitErrorHandle(ctx)
+	if err := c.xaResource.XAPrepare(ctx, c.xaBranchXid.String()); err != nil {
+		return c.commitErrorHandle(ctx, err)
 	}
 	return nil
 }
 
-func (c *XAConn) commitErrorHandle(ctx context.Context) error {
-	var err error
-	if err = c.XaRollback(ctx, c.xaBranchXid); err != nil {
-		err = fmt.Errorf("failed to report XA branch commit-failure xid:%s, err:%w", c.txCtx.XID, err)
+// commitErrorHandle rolls the branch back and returns the failure that made phase one fail
+func (c *XAConn) commitErrorHandle(ctx context.Context, cause error) error {
+	err := fmt.Errorf("xa branch phase one failed, rolled back, xid:%s: %w", c.txCtx.XID, cause)
+	if rbErr := c.XaRollback(ctx, c.xaBranchXid); rbErr != nil {
+		err = fmt.Errorf("xa branch phase one failed xid:%s: %w; xa rollback failed: %v", c.txCtx.XID, cause, rbErr)
 	}
 	c.cleanXABranchContext()
 	return err
@@ -357,14 +356,6 @@ func (c *XAConn) commitErrorHandle(ctx context.Context) error {
 
 func (c *XAConn) ShouldBeHeld() bool {
 	return c.res.IsShouldBeHeld() || (c.res.GetDbType().String() != "" && c.res.GetDbType() != types.DBTypeUnknown)
-}
-
-func (c *XAConn) checkTimeout(ctx context.Context, now time.Time) error {
-	if now.Sub(c.branchRegisterTime) > xaConnTimeout {
-		c.XaRollback(ctx, c.xaBranchXid)
-		return fmt.Errorf("XA branch timeout error xid:%s", c.txCtx.XID)
-	}
-	return nil
 }
 
 func (c *XAConn) Close() error {
